@@ -51,7 +51,7 @@ static void gen_call(GenSt& g, int th, int parent, int at, int depth, int force_
     case A_SCAN: n = ns[s.choose(7)]; grain = s.range(1, 3); form = std::to_string(s.choose(4)); kinds = form == "2" ? "bbbj" : "bbbjS"; break;
     case A_SORT: { static const int sz[] = { 600, 900, 1300 }; n = sz[s.choose(3)]; break; }
     case A_PIPE: { int nf = s.range(2, 3); form = ""; for (int i = 0; i < nf; i++) form += "pio"[s.choose(3)]; n = s.range(0, 10); grain = s.range(1, 4); cx = (int)s.choose(3); break; }
-    case A_TG: n = s.range(1, 8); form = std::to_string(s.choose(3)); x = s.range(0, std::min(3, n)); n += x; break;
+    case A_TG: n = s.range(1, 8); form = std::to_string(s.choose(4)); x = s.range(0, std::min(3, n)); n += x; cx = (int)s.weighted({ 2, 1, 1 }); break;     // cx: task_group over a user context; form 3: run_and_wait(task_handle)
     case A_ARENA: n = 1; form = std::to_string(s.choose(2)); break;
     case A_FG: n = s.range(1, 8); form = std::to_string(s.choose(3)); cx = (int)s.choose(3); x = (int)s.choose(2); break;    // cx: graph over a user context; x=1: no graph::reset() before the graph is destroyed
     }
@@ -389,12 +389,13 @@ static void run_alg(Call& c) {
         for (rd = 0; rd < rounds; rd++) { attempt(c, rd, [&] { if (c.cx) tbb::parallel_pipeline((size_t)c.g, chain, ctx); else tbb::parallel_pipeline((size_t)c.g, chain); }); between(); }
         break; }
     case A_TG: {
-        tbb::task_group tg; int rd = 0;
+        tbb::task_group tg_own, tg_user(ctx); tbb::task_group& tg = c.cx ? tg_user : tg_own; int rd = 0;
         for (rd = 0; rd < rounds; rd++) attempt(c, rd, [&] {
             int base = c.n - c.x; bool waited = false; tbb::task_group_status st = tbb::not_complete;
             for (int i = 0; i < base; i++) {
                 if (fi == 2 && i == base - 1) { st = tg.run_and_wait(Fn(c, &rd, i, &tg)); waited = true; }
-                else if (fi == 1 || (fi == 2 && (i & 1))) tg.run(tg.defer(Fn(c, &rd, i, &tg)));
+                else if (fi == 3 && i == base - 1) { st = tg.run_and_wait(tg.defer(Fn(c, &rd, i, &tg))); waited = true; }
+                else if (fi == 1 || (fi >= 2 && (i & 1))) tg.run(tg.defer(Fn(c, &rd, i, &tg)));
                 else tg.run(Fn(c, &rd, i, &tg));
             }
             if (!waited) st = tg.wait();
